@@ -157,4 +157,166 @@ theorem dblinkMore_fuel (d : Nat) (hd : 1 ≤ d) : ∀ k k' fl (s : PS),
           rw [hsp]; omega
     · rw [if_neg hc]
 
+/-! ### the scan loop: every record read consumes its LOCUS keyword -/
+
+theorem locusBack_fails {α} (s : PS) : ∃ s', (locusBack : P α).run' s = (.error .fail, s') := by
+  unfold locusBack
+  rw [run_bind, run_pop]
+  cases s.stk with
+  | nil =>
+    dsimp only
+    rw [run_bind, run_pop]
+    cases s.stk <;> exact ⟨_, rfl⟩
+  | cons f st =>
+    dsimp only
+    rw [run_bind, run_pop]
+    cases st <;> exact ⟨_, rfl⟩
+
+/-- one element of the LOCUS `Seq` when only the success path matters -/
+theorem locusTry_wp2 {α} {p : P α} {Q} {L base} {s : PS} (hp : Safe p) (h : Fr L base 0 s)
+    (kok : ∀ a s', Fr L base 0 s' → Q (.ok a) s')
+    (kf : ∀ s', Q (.error .fail) s') : WP (locusTry p) Q s := by
+  unfold locusTry
+  rw [wp_bind]; apply wp_attempt hp h; intro o s1 h1
+  dsimp only
+  split
+  · exact kok _ _ h1
+  · obtain ⟨s', e⟩ := locusBack_fails (α := α) s1
+    unfold WP; rw [e]; exact kf s'
+
+theorem wp_push_eq {Q} {s : PS} (k : Q (.ok ()) { s with stk := s.rest :: s.stk }) : WP push Q s := k
+
+theorem wp_lit_eq {Q} (p : Bytes) {s : PS}
+    (kok : p.length ≤ s.rest.length → Q (.ok ()) { s with rest := s.rest.drop p.length })
+    (kf : Q (.error .fail) s) : WP (lit p) Q s := by
+  unfold WP; rw [run_lit]
+  split
+  · rename_i hc
+    simp only [Bool.and_eq_true, decide_eq_true_eq] at hc
+    exact kok hc.2
+  · exact kf
+
+/-- `locusTry` when the post-condition holds for every failure -/
+theorem locusTry_wp3 {α} {p : P α} {Q : Except Err α → PS → Prop} {s : PS}
+    (hp : WP p (fun r s' => match r with | .ok a => Q (.ok a) s' | .error _ => True) s)
+    (kf : ∀ s', Q (.error .fail) s') (kp : ∀ s', Q (.error .panic) s') : WP (locusTry p) Q s := by
+  unfold locusTry
+  rw [wp_bind]
+  unfold WP at hp ⊢
+  rw [run_attempt]
+  generalize p.run' s = x at hp ⊢
+  rcases x with ⟨r, s1⟩
+  rcases r with e | a
+  · cases e
+    · dsimp only
+      obtain ⟨s', e⟩ := locusBack_fails (α := α) s1
+      rw [e]; exact kf s'
+    · exact kp s1
+  · exact hp
+
+theorem wp_drop_eq {Q} {s : PS} (k : Q (.ok ()) { s with stk := s.stk.drop 1 }) : WP drop Q s := k
+
+theorem locusBack_wp_any {α} {Q : Except Err α → PS → Prop} {s : PS}
+    (kf : ∀ s', Q (.error .fail) s') : WP (locusBack : P α) Q s := by
+  obtain ⟨s', e⟩ := locusBack_fails (α := α) s
+  unfold WP; rw [e]; exact kf s'
+
+theorem locusTail_wp {L N : Nat} {base} {s : PS} (h : Fr L base 0 s) (x : Locus) (hL : L + 5 ≤ N) :
+    WP (do drop; drop; pure x : P Locus)
+      (fun r s' => ∀ l, r = .ok l → s'.rest.length + 5 ≤ N) s := by
+  rw [wp_bind]; apply wp_drop_eq; dsimp only
+  rw [wp_bind]; apply wp_drop_eq; dsimp only
+  rw [wp_pure]; intro _ _
+  have := h.le
+  show s.rest.length + 5 ≤ N
+  omega
+
+/-- a LOCUS line that is read has used up at least the five bytes of `LOCUS` -/
+theorem locusParser_consumes (s : PS) (hs : Sorted s.rest.length s.stk) :
+    WP locusParser (fun r s' => ∀ l, r = .ok l → s'.rest.length + 5 ≤ s.rest.length) s := by
+  unfold locusParser
+  rw [wp_bind]; apply wp_push_eq; dsimp only
+  rw [wp_bind]; apply wp_push_eq; dsimp only
+  rw [wp_bind]
+  apply locusTry_wp3
+  · apply wp_lit_eq
+    · intro hc
+      dsimp only
+      have h5 : (bs "LOCUS").length = 5 := by decide
+      rw [h5] at hc
+      dsimp only at hc
+      have hfr : Fr (s.rest.length - 5) (s.rest :: s.rest :: s.stk) 0
+          ⟨s.rest.drop (bs "LOCUS").length, s.rest :: s.rest :: s.stk⟩ := by
+        refine ⟨⟨[], rfl, Nat.le_refl _, fun _ hf => nomatch hf⟩, ?_, ?_⟩
+        · show (s.rest.drop _).length ≤ _; rw [h5, List.length_drop]; omega
+        · refine ⟨?_, Nat.le_refl _, hs⟩
+          show (s.rest.drop _).length ≤ _; rw [List.length_drop]; omega
+      repeat (first
+        | (with_reducible apply locusTry_wp2 (by safe_side) ‹_› <;> (intros; try contradiction))
+        | (with_reducible apply wp_safe (by safe_side) ‹_› <;> (intros; try contradiction))
+        | (apply locusBack_wp_any; intro _ l hl; cases hl)
+        | (apply locusTail_wp ‹_›; omega)
+        | (intro l hl; cases hl)
+        | rw [wp_bind]
+        | dsimp only
+        | split)
+    · trivial
+  · intro s' l hl; cases hl
+  · intro s' l hl; cases hl
+
+
+theorem wp_clear_eq {Q} {s : PS} (k : Q (.ok ()) { s with stk := [] }) : WP clear Q s := k
+
+/-- a record that is returned has used up at least five bytes -/
+theorem genbankParser_consumes (reg : Registry) (s : PS) (hs : Sorted s.rest.length s.stk)
+    (hlen : s.rest.length < 10 ^ 9) :
+    WP (genbankParser reg) (fun r s' => ∀ v, r = .ok v → s'.rest.length + 5 ≤ s.rest.length) s := by
+  have hsafe := locusParser_safe _ _ _ s (Fr.init hs)
+  have hdep := locusParser_depth s
+  have hcons := locusParser_consumes s hs
+  unfold genbankParser
+  rw [wp_bind]
+  refine wp_mono (wp_and (wp_and hsafe hdep) hcons) ?_
+  intro r s1 ⟨⟨⟨hnp, h1⟩, hd⟩, hc⟩
+  rcases r with e | l
+  · intro v hv; cases hv
+  · dsimp only
+    have hd5 := hd l rfl
+    have hc5 := hc l rfl
+    rw [wp_bind]
+    apply wp_clear_eq
+    have h2' : Fr (s.rest.length - 5) [] 0 { s1 with stk := [] } :=
+      Fr.mk0 (fun _ hf => nomatch hf) (by show s1.rest.length ≤ _; omega) trivial
+    dsimp only
+    refine wp_mono (Q1 := Std (s.rest.length - 5) [] 0) ?_
+      (fun r s' h v _ => by have := h.2.le; omega)
+    split
+    · repeat wps_step
+    · rename_i hcond
+      have h0 : 0 ≤ l.length := by omega
+      have hrl := recordLoop_safeS (L := s.rest.length - 5) l.length l.depth h0 (by omega) (by omega)
+      repeat wps_step
+
+/-- the fuel `len(input) + 1` of the scan loop is adequate: every record read consumes input, so
+any two fuels above the number of bytes give the same result -/
+theorem parseAll_fuel : ∀ k k' (reg : Registry) (input : Bytes) (acc : List Record),
+    input.length < 10 ^ 9 → input.length < k → input.length < k' →
+    parseAll reg k input acc = parseAll reg k' input acc
+  | 0, _, _, _, _, _, h, _ => absurd h (Nat.not_lt_zero _)
+  | _ + 1, 0, _, _, _, _, _, h => absurd h (Nat.not_lt_zero _)
+  | k + 1, k' + 1, reg, input, acc, hlen, hk, hk' => by
+    unfold parseAll
+    split
+    · rfl
+    · have h := genbankParser_consumes reg ⟨input, []⟩ trivial hlen
+      unfold WP at h
+      rcases hrun : (genbankParser reg).run' ⟨input, []⟩ with ⟨r, s'⟩
+      rw [hrun] at h
+      rcases r with e | ⟨rec, reg'⟩
+      · cases e <;> rfl
+      · dsimp only
+        have := h _ rfl
+        dsimp only at this
+        exact parseAll_fuel k k' reg' s'.rest (rec :: acc) (by omega) (by omega) (by omega)
+
 end Gts.GenBank
